@@ -143,6 +143,7 @@ func runC17(r *mon.Run) {
 	r.FloorFam("binding", 6)
 	r.FloorFam("leaf-alter", 20)
 	r.FloorFam("component-cheat", 30)
+	r.FloorFam("component-position-alter", 500)
 	r.FloorAccept("component-honest", 4)
 }
 
@@ -369,6 +370,39 @@ func c17Components(r *mon.Run, rng *rand.Rand) {
 		hon("almostsafe", keyproof.VerifAlmostSafePrimeProductVerifyStructure(aspp) && keyproof.VerifAlmostSafePrimeProductVerifyProof(n, challenge, bi(3), aspp))
 		qspp := keyproof.VerifQuasiSafePrimeProductBuild(pp, qp, challenge)
 		hon("quasisafe", keyproof.VerifQuasiSafePrimeProductVerifyStructure(qspp) && keyproof.VerifQuasiSafePrimeProductVerifyProof(n, challenge, qspp))
+
+		// every position of every honest component proof altered: the component verifier must notice each one
+		posAlter := func(name string, n int, alter func(i int) (restore func()), verify func() bool) {
+			for i := 0; i < n; i++ {
+				restore := alter(i)
+				var ok bool
+				pv, _ := mon.Try(func() { ok = verify() })
+				restore()
+				out := outcome(ok, nil)
+				if pv != nil {
+					out, ok = "panic", false
+				}
+				r.Eval("component-position-alter", out)
+				r.Distinct("component-position-alter", name, i, rep)
+				if ok {
+					r.Violation("C17/component-ignores-altered-position/"+name, fmt.Sprintf("component verifier %s accepts a proof whose entry %d of %d was altered", name, i, n), map[string]any{"component": name, "position": i})
+					return
+				}
+			}
+		}
+		bump := func(list []*big.Int) func(i int) func() {
+			return func(i int) func() {
+				orig := list[i]
+				list[i] = add(orig, bigOne)
+				return func() { list[i] = orig }
+			}
+		}
+		posAlter("squarefree.Responses", len(sf.Responses), bump(sf.Responses), func() bool { return keyproof.VerifSquareFreeVerifyProof(n, challenge, bi(0), sf) })
+		posAlter("primepower.Responses", len(ppp.Responses), bump(ppp.Responses), func() bool { return keyproof.VerifPrimePowerProductVerifyProof(n, challenge, bi(1), ppp) })
+		posAlter("disjoint.Responses", len(dpp.Responses), bump(dpp.Responses), func() bool { return keyproof.VerifDisjointPrimeProductVerifyProof(n, challenge, bi(2), dpp) })
+		posAlter("almostsafe.Responses", len(aspp.Responses), bump(aspp.Responses), func() bool { return keyproof.VerifAlmostSafePrimeProductVerifyProof(n, challenge, bi(3), aspp) })
+		posAlter("almostsafe.Commitments", len(aspp.Commitments), bump(aspp.Commitments), func() bool { return keyproof.VerifAlmostSafePrimeProductVerifyProof(n, challenge, bi(3), aspp) })
+		posAlter("quasisafe.PPP.Responses", len(qspp.PPPproof.Responses), bump(qspp.PPPproof.Responses), func() bool { return keyproof.VerifQuasiSafePrimeProductVerifyProof(n, challenge, qspp) })
 
 		cheat := func(name, strategy string, f func() bool) {
 			var ok bool
